@@ -161,57 +161,21 @@ func runC20(c *Ctx) {
 	c.Rule(re, "healthCheck stores N (configured failures) iff no token failed, else last-1 guarded by last>0, else last; a token is failed iff Ping returned non-nil", 4)
 
 	// ---- R20a, module-wide
-	sigKeys := p.closeSignalKeys()
 	serverInst := 0
-	for _, fn := range p.Funcs {
-		for _, b := range fn.Blocks {
-			for _, in := range b.Instrs {
-				sel, ok := in.(*ssa.Select)
-				if !ok {
-					continue
-				}
-				// is the select in a cycle?
-				cyc := reach(fn, b.Succs, nil, nil)[b.Index]
-				if !cyc {
-					continue
-				}
-				targets := selectCaseTargets(sel)
-				for i, st := range sel.States {
-					if st.Dir != types.RecvOnly {
-						continue
-					}
-					k := p.memKey(st.Chan)
-					// ctx.Done() counts only when the context outlives the loop (defined
-					// outside the cycle): a per-iteration timeout context is not a close signal
-					isSig := (k != "" && sigKeys[k]) || (p.isCtxDone(st.Chan) && !definedInCycle(fn, st.Chan.(*ssa.Call).Call.Value, b))
-					if !isSig {
-						continue
-					}
-					c.Analysed(p.FName(fn))
-					what := k
-					if what == "" {
-						what = "ctx.Done()"
-					}
-					key := fmt.Sprintf("%s select-case<-%s", p.FName(fn), what)
-					tgt := targets[i]
-					if tgt == nil {
-						c.Undecided(ra, key, p.Pos(sel.Pos()), "cannot locate the case body of the select")
-						continue
-					}
-					if pkgOf(fn) != nil && p.Rel(pkgOf(fn).Path()) == "server" {
-						serverInst++
-					}
-					pred := map[int]int{}
-					seen := reach(fn, []*ssa.BasicBlock{tgt}, nil, pred)
-					if seen[b.Index] {
-						c.Fail(ra, key, p.Pos(st.Pos), "the close case re-enters the select: after the channel is closed the loop spins forever (a bare `break` only leaves the select)", p.witness(fn, pred, b.Index)...)
-					} else {
-						c.Pass(ra, key, p.Pos(st.Pos), "close case leaves the loop")
-					}
-				}
-			}
+	for _, f := range selectSpins(p) {
+		if len(f.Key) > 9 && f.Key[:9] == "(*server." {
+			serverInst++
+		}
+		switch {
+		case f.OK:
+			c.Pass(ra, f.Key, f.Pos, "close case leaves the loop")
+		case len(f.Detail) > 9 && f.Detail[:9] == "UNDECIDED":
+			c.Undecided(ra, f.Key, f.Pos, f.Detail)
+		default:
+			c.Fail(ra, f.Key, f.Pos, f.Detail, f.Path...)
 		}
 	}
+	c.runControl("R20a select-spin control (ctl/spin.(*S).Loop)", "spin.S).Loop select-case", selectSpins)
 	if serverInst == 0 {
 		c.Undecided(ra, "server health loop", "-", "no select on a close-signalling channel found in package server: the health loop's exit mechanism is gone or unrecognised")
 	}
@@ -303,7 +267,7 @@ func runC20(c *Ctx) {
 				}
 			}
 		}
-		aliasOK := sigKeys["f:server.Server.Closed"]
+		aliasOK := p.closeSignalKeys()["f:server.Server.Closed"]
 		if len(closeCalls) != 1 {
 			c.Fail(rc, "(*server.Server).Close close()", p.Pos(closeFn.Pos()), fmt.Sprintf("%d close() calls, expected 1", len(closeCalls)))
 		} else {
